@@ -386,6 +386,22 @@ def handle (toks : List String) : String :=
            | _ => bad)
         | none => bad)
      | none => bad)
+  | ["jsqrt", s, a, r] =>
+    -- judge an arbitrary answer `r` for `sqrt a` with the property's own predicate (C12)
+    (match parseSem s with
+     | some F =>
+       (match parseFlt F a, parseFltAny F r with
+        | some x, some r =>
+          let verdict :=
+            if x.cat == .zero then b01 (r.cat == .zero && r.sign == x.sign)
+            else if x.cat == .nan || x.sign then b01 (r.cat == .nan)
+            else if x.cat == .inf then b01 (r.cat == .inf && !r.sign)
+            else
+              let k := match F.rm with | .nte | .nta => 1 | _ => 2
+              b01 (r.isCanonical && Spec.sqrtWithin x r k (k == 1))
+          out ("ok=" ++ verdict) "-" "judge"
+        | _, _ => bad)
+     | none => bad)
   | ["cmp", s, a, b] =>
     (match parseSem s with
      | some F =>
